@@ -26,6 +26,8 @@ func checkC10(r *Run) {
 		return
 	}
 	ruleA19(r, p, "A19", w, "w")
+	ruleProducersNeverTouchWrappedWriter(r, p, "A19", w)
+	rulePublishedBufferStaysWithConsumer(r, p, "A13")
 	ruleCopyBeforePublish(r, p, w)
 	ruleSingleConsumer(r, p)
 	ruleA13(r, p, map[string]bool{"diode": true}, "ab")
